@@ -48,8 +48,11 @@ def publish_value_(
 
         return ops.multicast(subject_factory=subject_factory, mapper=mapper)
 
-    subject = BehaviorSubject(initial_value)
-    return ops.multicast(subject)
+    def publish_value(source: Observable[_T1]) -> ConnectableObservable[_T1]:
+        # one subject per application of the operator, not per operator object
+        return source.pipe(ops.multicast(subject=BehaviorSubject(initial_value)))
+
+    return publish_value
 
 
 __all__ = ["publish_value_"]
